@@ -29,10 +29,10 @@ _RE_COV = re.compile(r'^<(\w+) line \d+, col \d+ to line \d+, col \d+ of module 
 
 
 def action_coverage(out):
-    """action name -> number of times TLC took it (from the `-coverage 1` report)."""
+    """action name -> number of times TLC took it (the `-coverage 1` reports are cumulative: keep the last/largest)."""
     cov = {}
     for m in _RE_COV.finditer(out):
-        cov[m.group(1)] = cov.get(m.group(1), 0) + int(m.group(3))
+        cov[m.group(1)] = max(cov.get(m.group(1), 0), int(m.group(3)))
     return cov
 
 
